@@ -8,7 +8,7 @@
 From Coq Require Import ZArith List Bool Lia.
 Require Import QzBase.Calendar QzBase.GoTime QzBase.Fields.
 Require Import QzCron.Gen.Params QzCron.Gen.CsmSrc QzCron.CsmModel QzCron.SrcEquiv QzCron.NftProofs QzCron.SrcMachine.
-Require Import QzCron.NextFire QzCron.GoTimeLoc QzCron.CronExt QzCron.Gen.CronSrc QzCron.CronSrcEquiv QzCron.NftSrcEquiv QzCron.CsmSpec.
+Require Import QzCron.NextFire QzCron.GoTimeLoc QzCron.CronExt QzCron.Gen.CronSrc QzCron.CronSrcEquiv QzCron.NftSrcEquiv QzCron.CsmSpec QzCron.ZoneProofs QzCron.ZoneComplete QzCron.ZoneFinal.
 Import ListNotations.
 Open Scope Z_scope.
 
@@ -168,7 +168,8 @@ Theorem SrcTie_C02_on_the_source : forall f off prev,
 Proof.
   intros f off prev Hwf Hoff Hp.
   rewrite (src_next_fire_time f Hwf (fixed_zone off) (fixed_zone_off_ok off Hoff) prev Hp).
-  change (next_fire_time_zone f (fixed_zone off) prev) with (next_fire_time f off prev).
+  assert (Ez : next_fire_time_zone f (fixed_zone off) prev = next_fire_time f off prev) by (unfold next_fire_time; reflexivity).
+  rewrite Ez. clear Ez.
   split.
   - intros ns H. destruct (next_fire_time f off prev) as [ns'| |] eqn:E; cbn [encode] in H; try discriminate.
     injection H as ->. exact (nft_fixed_least f Hwf off Hoff prev ns Hp E).
@@ -194,3 +195,18 @@ Proof.
   - exists 0, c_ErrTriggerExpired. split; [reflexivity|]. right. split; reflexivity.
 Qed.
 Print Assumptions SrcTie_C06_on_the_source.
+
+(* C14 read off the translated source (locations with transitions, wf_zone): a matching instant after prev that is
+   not the later occurrence of a repeated local time is never passed over by the Go function, and it never
+   reports expiry while such an instant remains *)
+Theorem SrcTie_C14_on_the_source : forall f z prev t,
+  wf_fields f = true -> wf_zone z = true -> min_nanos <= prev <= max_nanos ->
+  prev < t <= max_nanos -> t mod nanos = 0 -> matches_at f z t -> ~ is_repeat z t ->
+  exists ns, g_NextFireTime {| CronTrigger_fields := f; CronTrigger_location := z |} prev = Some (ns, 0) /\ ns <= t.
+Proof.
+  intros f z prev t Hwf Hz Hp Ht Hmod Hm Hr.
+  destruct (nft_zone_never_skips_fresh f z prev t Hwf Hz Hp Ht Hmod Hm Hr) as (ns & E & Hle).
+  exists ns. split; [|exact Hle].
+  rewrite (src_next_fire_time f Hwf z (wf_zone_off_ok z Hz) prev Hp), E. reflexivity.
+Qed.
+Print Assumptions SrcTie_C14_on_the_source.
